@@ -299,6 +299,8 @@ def run_prepared(prep, st, ctx):
 
     if sim.deadlock or rsim.deadlock:
         out.violate("C13.deadlock", sig, describe())
+    elif sim.capped:
+        out.violate("C13.does_not_terminate", sig, dict(describe(), steps=sim.seq))
     elif not sim.capped:
         if not ares or not rres:
             out.violate("C13.did_not_finish", sig, describe())
